@@ -234,6 +234,16 @@ example : specMClause [.debug] false
           items := [⟨0, 1, some 4, none, some (.val 1)⟩, ⟨0, 4, none, none, some (.val 4)⟩] }⟩]
     = "no-add-after-finish@flush" := by decide
 
+/-- ... flushing a free-standing DebugBatch 1 that completes, with its `_result`, item 0 of the still pending ACTIVE
+    batch 0 (second audit, M1) ... -/
+example : specMClause [.debug] false
+  [.op 0 ⟨.add 1 none none, .created 0, [.created 0 0 none],
+      { kind := .debug, active := 0, batches := [⟨none, [0], 0⟩], items := [⟨0, 1, none, none, none⟩] }⟩,
+   .newBatch 0 [] { kind := .debug, active := 0, batches := [⟨none, [0], 0⟩, ⟨none, [], 0⟩], items := [⟨0, 1, none, none, none⟩] },
+   .op 0 ⟨.flush 1, .unit, [.item 0 (.val 1) false, .announce 1 [] 0],
+     { kind := .debug, active := 0, batches := [⟨none, [0], 0⟩, ⟨some (.val 0), [], 0⟩],
+       items := [⟨0, 1, none, none, some (.val 1)⟩] }⟩] = "item-of-other-batch@flush" := by decide
+
 /-- ... and a flush that uses the setting KEEP_DEPENDENCIES had when the batch was created, not the current one -/
 example : specMClause [.user] false
     [.op 0 ⟨.add 1 none none, .created 0, [.created 0 0 none],
